@@ -30,8 +30,14 @@ Async == [Base EXCEPT !.async = TRUE, !.acked = FALSE, !.topic = "", !.nparts = 
 Three == [Base EXCEPT !.maxAttempts = 3, !.batchSize = 1, !.nparts = [t |-> 1],
           !.plan = ( 1 :> [g |-> 1, msgs |-> <<M(1, ""), M(1, "")>>, cancellable |-> FALSE] )]
 
-ConfigsQuick == {Base, Over, Three}
+\* small enough for fairness/liveness checking
+Live1 == [Base EXCEPT !.nparts = [t |-> 1], !.outcomes = { o \in AllOutcomes : o.applied = o.ok \/ o.retriable },
+          !.plan = ( 1 :> [g |-> 1, msgs |-> <<M(1, ""), M(2, "")>>, cancellable |-> FALSE]
+                  @@ 2 :> [g |-> 2, msgs |-> <<M(1, "")>>, cancellable |-> FALSE] )]
+
+ConfigsQuick == {Three, Seq2}
 ConfigsFull == {Base, Seq2, Over, Async, Three}
+ConfigsLive == {Live1}
 
 OnlyBase == {Base}
 OnlyOver == {Over}
